@@ -51,6 +51,10 @@ def c06_mir(proto, body):
         for k in range(NPRESS):
             loc.append('i64:p%d' % k)
             B.append('mov p%d, i64:%d(v)' % (k, PO + 8 * k))
+    if kind == 'leafpress':
+        for k in range(body['nlive']):
+            loc.append('i64:p%d' % k)
+            B.append('mov p%d, i64:%d(v)' % (k, PO + 8 * k))
     if kind == 'fppress':
         for k in range(NPRESS):
             loc.append('d:q%d' % k)
@@ -112,6 +116,14 @@ def c06_mir(proto, body):
             B.append('add s, s, p%d' % k)
             B.append('lsh s, s, 1')
         B.append('mov i64:%d(o), s' % XO)
+    if kind == 'leafpress':
+        # two rounds so that every value is live across the whole first round
+        B.append('mov s, 0')
+        for rnd in range(2):
+            for k in range(body['nlive']):
+                B.append('add s, s, p%d' % k)
+                B.append('lsh s, s, 1')
+        B.append('mov i64:%d(o), s' % XO)
     if kind == 'fppress':
         B.append('call hp, helper, h, 5, 7')
         B.append('dmov dz, q0')
@@ -141,8 +153,8 @@ def c06_mir(proto, body):
 
 
 def gen_body(rng):
-    kind = rng.choice(['plain', 'plain', 'pressure', 'pressure', 'alloca', 'fppress', 'call'])
-    return dict(kind=kind, va_alloca=rng.random() < 0.5, alloca_n=rng.choice([1, 8, 15, 16, 17, 100, 333]),
+    kind = rng.choice(['plain', 'plain', 'pressure', 'pressure', 'alloca', 'fppress', 'call', 'leafpress', 'leafpress'])
+    return dict(kind=kind, nlive=rng.randint(6, 14), va_alloca=rng.random() < 0.5, alloca_n=rng.choice([1, 8, 15, 16, 17, 100, 333]),
                 press=[rng.getrandbits(64) for _ in range(NPRESS)],
                 fpress=[float(rng.randint(-1000, 1000)) for _ in range(NPRESS)],
                 mxcsr=rng.choice([0x1f80, 0x1f80, 0x3f80, 0x5f80, 0x7f80, 0x9fc0]),
@@ -166,7 +178,7 @@ def vals_buffer(proto, body, resvals):
     buf = bytearray(PO + 8 * NPRESS + 64)
     for i, b in enumerate(resvals):
         buf[RO + 16 * i:RO + 16 * i + len(b)] = b
-    if body['kind'] in ('pressure', 'call'):
+    if body['kind'] in ('pressure', 'call', 'leafpress'):
         for k, x in enumerate(body['press']):
             buf[PO + 8 * k:PO + 8 * k + 8] = x.to_bytes(8, 'little')
     elif body['kind'] == 'fppress':
@@ -239,6 +251,15 @@ def sret_required(proto):
     """first parameter is the return block and rax is not taken by an integer result"""
     return proto['nfixed'] >= 1 and proto['args'] and proto['args'][0].startswith('rblk') \
         and not any(t in G.ITYS for t in proto['res'])
+
+
+def leaf_sum(body):
+    M = (1 << 64) - 1
+    s = 0
+    for rnd in range(2):
+        for k in range(body['nlive']):
+            s = ((s + body['press'][k]) << 1) & M
+    return s
 
 
 def press_sum(body):
@@ -317,6 +338,10 @@ def compare_c06(proto, body, m, impl, vals, resvals, rblk_ptrs, engine='gen'):
         got = int.from_bytes(outs[XO:XO + 8], 'little')
         if got != press_sum(body):
             bad.append('register-pressure checksum wrong: %x, expected %x' % (got, press_sum(body)))
+    if kind == 'leafpress':
+        got = int.from_bytes(outs[XO:XO + 8], 'little')
+        if got != leaf_sum(body):
+            bad.append('leaf register-pressure checksum wrong: %x, expected %x' % (got, leaf_sum(body)))
     if kind == 'fppress':
         import struct
         got = struct.unpack('<d', outs[XO:XO + 8])[0]
